@@ -27,7 +27,8 @@ CallBuiltin(name, args, st) ==
       a1 == args[1]  a2 == args[2]  a3 == args[3]
       bad == BR(BErr(name), st)
   IN
-  CASE name = "len" ->
+  CASE \E i \in 1..n : Vague(args[i]) -> BR(Unspec, st)    \* an argument the documentation does not pin down
+    [] name = "len" ->
          IF n # 1 THEN bad
          ELSE CASE a1.k = "str" -> BR(IntV(Utf8Len(a1.v)), st)
                 [] a1.k \in {"arr", "map"} -> BR(IntV(Len(Elems(st, a1))), st)
